@@ -259,5 +259,53 @@ theorem flipped_phase2 (pre : Pre s0 w fresh0) (pre2 : Pre2 s0 w fresh0) (L : Li
     · rename_i hne
       exact Triple.conseq rest (fun r h => flipped_of_empty h (by simpa using hne)) (fun _ _ h => h) (fun _ h => h)
 
+/-- what a reader sees of an updated node once the state is flipped -/
+theorem Flipped.view_new {r : Run} (h : Flipped s0 resv remv r) {x : Handle} (hx : x ∈ resv) (hz : x.inactive ≠ 0) :
+    r.s.view x.lid = some (x.inactive, x.version + 1) := by
+  obtain ⟨a, b⟩ := h.new x hx hz
+  obtain ⟨_, a2, _, a4, _⟩ := activate_spec x
+  unfold State.view
+  rw [a]
+  simp [a2, a4, b]
+
+/-- **Phase 2 is atomic for readers.** However phase 2 ends — normally, at a failing call, or stopped by an observer
+right before ANY of its calls — the state is either still the staged one (every pre-existing node as before) or the
+flipped one (every updated node at its new version, every other node as before): there is no exit in between. -/
+theorem phase2_atomic (pre : Pre s0 w fresh0) (pre2 : Pre2 s0 w fresh0) (L : Lists s0 fresh0 resv remv) :
+    Triple (P2 s0 w fresh0 resv remv) (phase2 w) (fun _ => Flipped s0 resv remv)
+      (fun r' => Staged s0 w fresh0 r' ∨ Flipped s0 resv remv r') := by
+  unfold phase2
+  refine Triple.bind (Q1 := fun r0 r => P2 s0 w fresh0 resv remv r ∧ r0.reserved = resv ∧ r0.removedH = remv)
+    (Triple.get (fun r h => ⟨h, h.2⟩)) (fun r0 r hr => ?_)
+  obtain ⟨_, e1, e2⟩ := hr
+  revert r
+  show Triple (P2 s0 w fresh0 resv remv) _ _ _
+  refine Triple.bind (Q1 := fun _ => P2 s0 w fresh0 resv remv) ?_ (fun okLog => ?_)
+  · exact Triple.attempt (Q := fun _ => P2 s0 w fresh0 resv remv) (gen_logStep _) (fun _ h => .inl h.1)
+  simp only [e1, e2]
+  have rest : Triple (Flipped s0 resv remv) (do
+      unlockNodesKeys
+      let _ ← attempt (unlockItems w)
+      cleanup w) (fun _ => Flipped s0 resv remv) (fun r' => Staged s0 w fresh0 r' ∨ Flipped s0 resv remv r') := by
+    have : Preserves (Flipped s0 resv remv) (do
+        unlockNodesKeys
+        let _ ← attempt (unlockItems w)
+        cleanup w) :=
+      G.bind gen_unlockNodesKeys (fun _ => G.bind (G.attempt (gen_unlockItems w)) (fun _ => flipped_cleanup pre pre2 L))
+    exact Triple.conseq this (fun _ h => h) (fun _ _ h => h) (fun _ h => .inr h)
+  split
+  · refine Triple.bind (Q1 := fun _ => P2 s0 w fresh0 resv remv) ?_ (fun _ => ?_)
+    · exact Triple.conseq (gen_unlockNodesKeys (I := P2 s0 w fresh0 resv remv)) (fun _ h => h) (fun _ _ h => h) (fun _ h => .inl h.1)
+    · exact Triple.bind (Q1 := fun _ _ => False) (Triple.fail (fun _ h => .inl h.1)) (fun _ r h => h.elim)
+  · split
+    · refine Triple.bind (Q1 := fun _ => Flipped s0 resv remv) ?_ (fun _ => ?_)
+      · exact Triple.call _ _ _ _ _ (fun r o t hr => flip_establishes L hr o t)
+          (fun r o t hl hr => .inl (Frame.frame r _ hr.1 rfl rfl rfl rfl rfl)) (fun r o t hr => .inr (flip_establishes L hr o t))
+      · refine Triple.bind (Q1 := fun _ => Flipped s0 resv remv) ?_ (fun _ => rest)
+        refine Triple.conseq (G.attempt (I := Flipped s0 resv remv) ?_) (fun _ h => h) (fun _ _ h => h) (fun _ h => .inr h)
+        exact G.callSame _ _ _ _ _ (fun s => ⟨rfl, rfl⟩)
+    · rename_i hne
+      exact Triple.conseq rest (fun r h => flipped_of_empty h (by simpa using hne)) (fun _ _ h => h) (fun _ h => h)
+
 end
 end Sop.Commit
